@@ -49,7 +49,7 @@ type LoopSpec struct {
 	Props   []string
 }
 
-var atRe = regexp.MustCompile(`^"((?:[^"\\]|\\.)*)"\s+(assert|assume)\s+(.*)$`)
+var atRe = regexp.MustCompile(`^"((?:[^"\\]|\\.)*)"(?:#(\d+))?\s+(assert|assume)\s+(.*)$`)
 
 // PointSpec is an assertion attached to the first statement whose source line
 // contains Pattern (the pattern must occur on exactly one line of the function).
@@ -67,6 +67,7 @@ type PointSpec struct {
 	Pos     token.Pos
 	ready   bool
 	Assume  bool // the fact is assumed, not proved (listed in the evidence)
+	Occurrence int // "pattern"#k: the k-th line containing the pattern (0: the pattern must be unique)
 }
 
 type Contract struct {
@@ -251,14 +252,33 @@ func LoadCtx(repo string, pkgDirs []string) (*VerifCtx, error) {
 	}
 	c.fset = token.NewFileSet()
 	cfg.Fset = c.fset
+	// One load, so that all analysed packages live in one type universe and
+	// cross-package calls (mailbox -> gbn) see the callee's contracts: mailbox's
+	// go.mod replaces the gbn module by ../gbn, so loading from the mailbox
+	// directory compiles /repo/gbn from source (with the verif tag and overlay).
+	hasMailbox := false
 	for _, d := range pkgDirs {
-		cfg.Dir = filepath.Join(repo, d)
-		patterns := []string{"."}
 		if filepath.Base(d) == "mailbox" {
-			// the bit-stream dependency of the mnemonic codec is analysed from source
-			patterns = append(patterns, "github.com/kkdai/bstream")
+			hasMailbox = true
 		}
-		pkgs, err := packages.Load(cfg, patterns...)
+	}
+	var loads [][]string // dir, patterns...
+	if hasMailbox {
+		pats := []string{filepath.Join(repo, "mailbox"), ".", "github.com/kkdai/bstream"}
+		for _, d := range pkgDirs {
+			if filepath.Base(d) == "gbn" {
+				pats = append(pats, "github.com/lightninglabs/lightning-node-connect/gbn")
+			}
+		}
+		loads = append(loads, pats)
+	} else {
+		for _, d := range pkgDirs {
+			loads = append(loads, []string{filepath.Join(repo, d), "."})
+		}
+	}
+	for _, ld := range loads {
+		cfg.Dir = ld[0]
+		pkgs, err := packages.Load(cfg, ld[1:]...)
 		if err != nil {
 			return nil, err
 		}
@@ -555,7 +575,10 @@ func buildStub(rc *rawContract, file string) (*Contract, string, error) {
 			if m == nil {
 				return nil, "", fmt.Errorf("%s:%d: bad at clause (want: at \"source text\" assert <expr>)", file, l.line)
 			}
-			ps := &PointSpec{Pattern: m[1], Text: strings.TrimSpace(m[3]), Line: l.line, File: file, Index: len(ct.Points), Assume: m[2] == "assume"}
+			ps := &PointSpec{Pattern: m[1], Text: strings.TrimSpace(m[4]), Line: l.line, File: file, Index: len(ct.Points), Assume: m[3] == "assume"}
+			if m[2] != "" {
+				ps.Occurrence, _ = strconv.Atoi(m[2])
+			}
 			if strings.HasPrefix(ps.Text, "@") {
 				sp := strings.SplitN(ps.Text, " ", 2)
 				ps.Props = strings.Split(strings.TrimPrefix(sp[0], "@"), ",")
@@ -885,10 +908,12 @@ func (c *VerifCtx) pointSpecs(ct *Contract) []*PointSpec {
 		for ln := start.Line; ln <= end.Line && ln <= len(lines); ln++ {
 			if strings.Contains(lines[ln-1], pat) {
 				hit++
-				ps.SrcLine = ln
+				if ps.Occurrence == 0 || hit == ps.Occurrence {
+					ps.SrcLine = ln
+				}
 			}
 		}
-		if hit != 1 {
+		if (ps.Occurrence == 0 && hit != 1) || (ps.Occurrence > 0 && hit < ps.Occurrence) {
 			panic(fmt.Errorf("%s:%d: the pattern %q occurs on %d lines of %s (the code it was anchored to changed)", ps.File, ps.Line, ps.Pattern, hit, ct.Header))
 		}
 		ps.SrcFile = start.Filename
